@@ -125,6 +125,9 @@ class Executor(object):
         self.cx = fx.cx
         self.ev = Evaluator(fx)
         self.loop_ord = 0
+        # "split_paths": every path through the body is carried to the end on its own (no ite-merge of the branches): one obligation per path and postcondition.
+        # For loop-free string builders, where the merged formula is a nest of ite over concatenations the solvers give up on
+        self.split_paths = bool(fx.contract.get("split_paths"))
         self.matched_patterns = set()
         c = fx.contract
         self.pat_asserts = {norm_src(k): v for k, v in c.get("asserts", {}).items()}
@@ -165,7 +168,7 @@ class Executor(object):
             res = self.stmt(s, cur)
             normals = [o.st for o in res if o.kind == "normal"]
             outs.extend(o for o in res if o.kind != "normal")
-            if os.environ.get("PYVC_NO_MERGE") and len(normals) > 1:
+            if (self.split_paths or os.environ.get("PYVC_NO_MERGE")) and len(normals) > 1:
                 lo = self.loop_ord
                 for nst in normals:
                     self.loop_ord = lo
